@@ -511,6 +511,8 @@ func init() {
 		checkQuantifierAbsent(r, prog, a, "c05")
 		r.importing = "C03"
 		checkConnectives(r, prog, a, "c03") // "… is an error": and stays one on its way up through not/and/or
+		r.importing = "C06"
+		checkQuantifier(r, prog, a, "c06") // a selector below a bound name is the selector of that element: the table applies to `x.absent` inside any/all as outside
 		r.importing = "C04"
 		checkMatchDispatch(r, prog, a, "c04")
 		r.importing = "C18"
